@@ -48,8 +48,13 @@ fn unit_coords(spec: &Spec, v: &V, out: &mut Vec<f64>) {
 
 /// Product-law check: every tuple of the K^d mid-point lattice; B bins per coordinate, B | K.
 fn product_check<K: Kit>(spec: &Spec, d: usize, k: usize, b: usize, rep: &mut Report) {
+    product_check_sp::<K>(spec, K::build(spec), d, k, b, rep)
+}
+
+/// As `product_check`, for a space object handed in (e.g. one whose public `bounds` field was
+/// edited after construction, or a clone of such a space); `spec` describes the bounds it has NOW.
+fn product_check_sp<K: Kit>(spec: &Spec, sp: K::SP, d: usize, k: usize, b: usize, rep: &mut Report) {
     assert!(k % b == 0);
-    let sp = K::build(spec);
     let words = midpoints(k);
     let total = k.pow(d as u32);
     let mut n_coords = 0usize;
@@ -267,6 +272,67 @@ fn so3_check(bounds: Option<([f64; 4], f64)>, k: usize, tol: f64, rep: &mut Repo
 
 /// SE(3): product lattice K1^3 x K2^4; translation bins exact; (translation bin x rotation-angle
 /// bin) counts factorise exactly (independence of the components on the lattice).
+/// Stream audit (enumerated seeds, not the exhaustive lattice): a rejection sampler may change its
+/// behaviour after a long run of rejections (a retry budget with a fallback), which no single-attempt
+/// word tuple can show. For every seed of a lattice the real `StdRng` stream drives the real sampler;
+/// the conditional rotation-angle CDF (theta - sin theta)/(a - sin a) is compared at 15 fixed edges
+/// within 6 sigma, and no probability atom may sit on the cone boundary.
+fn so3_stream_audit(bounds: ([f64; 4], f64), seeds: u64, per_seed: usize, rep: &mut Report) {
+    use rand::SeedableRng;
+    let spec = Spec::So3 { bounds: Some(bounds), frac: None };
+    let (c, a) = bounds;
+    let angles: Vec<Result<Vec<f64>, String>> = (0..seeds)
+        .into_par_iter()
+        .map(|seed| {
+            let sp = So3::build(&spec);
+            guarded(|| {
+                let mut rng = rand::rngs::StdRng::seed_from_u64(seed);
+                (0..per_seed).map(|_| sp.sample_uniform(&mut rng).map(|s| so3_dist(&c, &[s.x, s.y, s.z, s.w])).unwrap_or(f64::NAN)).collect::<Vec<f64>>()
+            })
+            .map_err(|_| format!("seed {seed}: sampler unwound"))
+        })
+        .collect();
+    let mut th: Vec<f64> = Vec::new();
+    for r in angles {
+        match r {
+            Ok(v) => th.extend(v),
+            Err(e) => {
+                viol(rep, "SO3|stream-audit|sampler-failed", e, json!({"space": spec.json()}));
+                return;
+            }
+        }
+    }
+    let n = th.len() as f64;
+    rep.count("so3_stream_audits", 1);
+    rep.count("so3_stream_samples", th.len() as u64);
+    rep.count("evaluations", th.len() as u64);
+    let det = |extra: Value| json!({"space": spec.json(), "seeds": seeds, "samples_per_seed": per_seed, "more": extra});
+    if th.iter().any(|t| !t.is_finite() || *t > a + 2e-7) {
+        viol(rep, "SO3|stream-audit|sample-outside-cone", "a streamed sample lies outside the cone or is not finite".into(), det(json!({})));
+        return;
+    }
+    let norm = a - a.sin();
+    let mut worst = 0.0f64;
+    for e in 1..16 {
+        let edge = a * e as f64 / 16.0;
+        let f = (edge - edge.sin()) / norm;
+        let emp = th.iter().filter(|t| **t <= edge).count() as f64 / n;
+        let sigma = (f * (1.0 - f) / n).sqrt();
+        let dev = (emp - f).abs();
+        worst = worst.max(dev / sigma.max(1e-12));
+        if dev > 6.0 * sigma + 1e-4 {
+            viol(rep, "SO3|stream-audit|rotation-angle-cdf", format!("cone radius {a}: empirical CDF {emp:.5} at theta = {edge:.4}, exact {f:.5} (more than 6 sigma = {:.5} away)", 6.0 * sigma), det(json!({"edge": edge})));
+            return;
+        }
+    }
+    rep.max("max_so3_stream_deviation_in_sigma_x100", (worst * 100.0) as u64);
+    // the exact law has mass O(1e-9) within a(1 - 1e-9) of the boundary
+    let on_rim = th.iter().filter(|t| **t > a * (1.0 - 1e-9)).count();
+    if on_rim > 3 {
+        viol(rep, "SO3|stream-audit|boundary-atom", format!("{on_rim} of {} streamed samples sit on the cone boundary (radius {a}); the uniform law has no atom there", th.len()), det(json!({"on_boundary": on_rim})));
+    }
+}
+
 fn se3_check(k1: usize, k2: usize, rep: &mut Report) {
     let spec = Spec::Se3 { weight: 0.5, bounds: Some(vec![(0.0, 4.0), (-1.0, 1.0), (2.0, 3.0)]) };
     let sp = Se3::build(&spec);
@@ -361,6 +427,23 @@ pub fn run(tier: &'static str) -> i32 {
             a
         });
     rep.merge(r);
+    // bounds edited after construction through the public `bounds` field (and a clone of such a
+    // space): the region is what the space says NOW
+    {
+        use oxmpl::base::space::{RealVectorStateSpace, SO2StateSpace};
+        let target = vec![(0.0, 4.0), (-3.0, 5.0)];
+        let mut sp = RealVectorStateSpace::new(2, Some(vec![(0.0, 1.0), (-1.0, 1.0)])).expect("space");
+        sp.bounds = target.clone();
+        let spec = Spec::Rv { dim: 2, bounds: Some(target), frac: None };
+        let mut r = Report::new();
+        product_check_sp::<Rv>(&spec, sp.clone(), 2, 64, 8, &mut r);
+        product_check_sp::<Rv>(&spec, sp, 2, 64, 8, &mut r);
+        let mut s2 = SO2StateSpace::new(Some((-1.0, 1.0))).expect("space");
+        s2.bounds = (-2.0, 2.5);
+        product_check_sp::<So2>(&Spec::So2 { bounds: Some((-2.0, 2.5)), frac: None }, s2, 1, 4096, 64, &mut r);
+        r.count("edited_bounds_lattices", 3);
+        rep.merge(r);
+    }
     // SO(3): K = 32 (tolerance 0.02) in quick, K = 64 (0.006) in thorough; cones conditioned on theta <= theta_max
     let (k, tol) = if thorough { (64, 0.006) } else { (32, 0.02) };
     let rx = crate::catalog::quat_axis_angle([1.0, 0.0, 0.0], 90.0);
@@ -373,6 +456,11 @@ pub fn run(tier: &'static str) -> i32 {
     }
     let (k1, k2) = if thorough { (4, 16) } else { (2, 12) };
     se3_check(k1, k2, &mut rep);
+    // stream audits: narrow cones (where a retry budget would bite) and a wide one
+    let (seeds, per) = if thorough { (256, 4000) } else { (64, 1500) };
+    for b in [([0.0, 0.0, 0.0, 1.0], 0.5), (rx, 0.4), ([0.0, 0.0, 0.0, 1.0], 1.0), (rx, 2.0)] {
+        so3_stream_audit(b, seeds, per, &mut rep);
+    }
     let meta = CheckMeta {
         prop: "C14",
         tier,
@@ -385,7 +473,7 @@ pub fn run(tier: &'static str) -> i32 {
             "rand 0.9 maps a word w to the unit value (w >> 12) * 2^-52 (the exact-count results confirm it)".into(),
             "SO(3) quadrature tolerances calibrated at design time: correct sampler 0.0086 (K=32), 0.0016 (K=64); cube-normalisation without ball rejection 0.077".into(),
         ],
-        must_be_positive: vec!["product_lattices", "marginal_bins_checked", "pair_bins_checked", "so3_lattices", "so3_first_attempt_accepted", "octant_checks", "se3_lattices"],
+        must_be_positive: vec!["product_lattices", "marginal_bins_checked", "pair_bins_checked", "so3_lattices", "so3_first_attempt_accepted", "octant_checks", "se3_lattices", "edited_bounds_lattices", "so3_stream_audits"],
     };
     finish(&meta, rep, t0)
 }
